@@ -38,7 +38,7 @@ given **only the text of one property** and its own scratch git worktree of /rep
 on the original code, fails with the change) and `notes.md`, plus `eval.txt`
 (what `tools/seed_eval.sh` printed: demo on /repo, `git apply`, the 475-test
 baseline, demo again, the quick check at seed 0, `git checkout`) and `meta.json`.
-Directories ending in `b` come from a second round in which the agent was told
+Directories ending in `b`, `c`, `d` come from later rounds in which the agent was told
 only which spot the first contributor had changed, so that it had to pick a
 different mechanism. None of the changes is ever committed to /repo.
 
